@@ -54,7 +54,7 @@ def run_shard(shard, ctx):
         if kind == "nncontrol":
             variants += [("Sigma", "updated")]
         if kind != "nncontrol":
-            variants += [("Lambda", "fresh"), ("all", "fresh"), ("Sigma", "updated"), ("Sigma", "sliced")] + ([("Sigma", "replaced")] if kind in ("full", "diag") else []) + ([("b_none", "fresh"), ("b_none", "sliced")] if not kind.startswith("identity") else [])
+            variants += [("Lambda", "fresh"), ("SigmaLambda", "fresh"), ("all", "fresh"), ("Sigma", "updated"), ("Sigma", "sliced")] + ([("Sigma", "replaced")] if kind in ("full", "diag") else []) + ([("b_none", "fresh"), ("b_none", "sliced")] if not kind.startswith("identity") else [])
         for vi, (ctor, prep) in [(v, va) for v in vis for va in variants]:
             if (ctor, prep) != ("Sigma", "fresh") and vi not in (0, 100):
                 continue
